@@ -9,6 +9,7 @@ import (
 	"go/parser"
 	"go/types"
 	"math/big"
+	"regexp"
 	"strings"
 
 	"golang.org/x/tools/go/packages"
@@ -37,6 +38,8 @@ func (e *SpecEnv) child() *SpecEnv {
 	}
 	return &n
 }
+
+var reFixedFn = regexp.MustCompile(`^(at|bytes|from|upd)(\d+)$`)
 
 type specErr struct{ msg string }
 
@@ -119,8 +122,10 @@ func (e *SpecEnv) Eval(x SExpr) Val {
 			return v
 		}
 		if sig, ok := e.x.eng.preludeFuns[n.Name]; ok && len(sig.args) == 0 {
+			e.x.need(n.Name)
 			return Val{T: n.Name, S: sig.res}
 		}
+		e.x.need(n.Name)
 		specFail("unknown name %s", n.Name)
 	case *SOld:
 		c := *e
@@ -263,8 +268,8 @@ func (e *SpecEnv) equal(a, b Val) string {
 	if strings.HasPrefix(b.S, "Slice_") && a.T == "0" && a.S == "Int" {
 		return "(snil_" + sortId(sliceElemSortOf(b.S)) + " " + b.T + ")"
 	}
-	if n, ok := isFixedSort(a.S); ok && a.S == b.S && !e.hasBound(a.T) && !e.hasBound(b.T) {
-		e.x.u.fact(extInstance(n, a.T, b.T))
+	if n, ok := isFixedSort(a.S); ok && a.S == b.S {
+		return fmt.Sprintf("(eq%d %s %s)", n, a.T, b.T)
 	}
 	if a.S != b.S {
 		specFail("sort mismatch in ==: %s (%s) vs %s (%s)", a.T, a.S, b.T, b.S)
@@ -304,6 +309,15 @@ func (e *SpecEnv) call(n *SCall) Val {
 			return Val{T: "true", S: "Bool"}
 		}
 		return Val{T: "(and " + strings.Join(cs, " ") + ")", S: "Bool"}
+	case "unchangedExcept":
+		// unchangedExcept(place, ref): the heap arrays of place agree with old() at every ref but ref
+		r := e.Eval(n.Args[1])
+		var cs []string
+		for _, k := range x.placeKeys(e.pkg, specSrc(n.Args[0])) {
+			q := "r$q" + fmt.Sprint(x.nextQ())
+			cs = append(cs, fmt.Sprintf("(forall ((%s Int)) (! (=> (not (= %s %s)) (= (select %s %s) (select %s %s))) :pattern ((select %s %s))))", q, q, r.T, x.getHeap(e.st, k), q, x.getHeap(e.old, k), q, x.getHeap(e.st, k), q))
+		}
+		return Val{T: "(and " + strings.Join(cs, " ") + " true)", S: "Bool"}
 	case "indom":
 		m, k := e.Eval(n.Args[0]), e.Eval(n.Args[1])
 		mt, ok := m.Ty.Underlying().(*types.Map)
@@ -321,6 +335,21 @@ func (e *SpecEnv) call(n *SCall) Val {
 	case "allocated":
 		v := e.Eval(n.Args[0])
 		return Val{T: "(and (< 0 " + v.T + ") (< " + v.T + " " + e.st.next + "))", S: "Bool"}
+	case "bufOf":
+		w := e.Eval(n.Args[0])
+		return Val{T: "(select " + x.getHeap(e.st, x.bufKey()) + " " + w.T + ")", S: x.bytesSort(), Ty: bytesT()}
+	case "isBuffer":
+		w := e.Eval(n.Args[0])
+		x.need("dyntype")
+		return Val{T: fmt.Sprintf("(= (dyntype %s) %d)", w.T, x.eng.typeTag(types.NewPointer(x.eng.namedType("bytes", "Buffer")))), S: "Bool"}
+	case "readerPos":
+		r := e.Eval(n.Args[0])
+		_, ik := x.readerKeys()
+		return Val{T: "(select " + x.getHeap(e.st, ik) + " " + r.T + ")", S: "Int"}
+	case "readerData":
+		r := e.Eval(n.Args[0])
+		sk, _ := x.readerKeys()
+		return Val{T: "(select " + x.getHeap(e.st, sk) + " " + r.T + ")", S: x.bytesSort(), Ty: bytesT()}
 	case "nsent":
 		c := e.Eval(n.Args[0])
 		x.u.regHeap("chan.nsent", "(Array Int Int)")
@@ -335,6 +364,33 @@ func (e *SpecEnv) call(n *SCall) Val {
 		key := "chan.last." + sortId(es)
 		x.u.regHeap(key, "(Array Int "+es+")")
 		return Val{T: "(select " + x.getHeap(e.st, key) + " " + c.T + ")", S: es, Ty: ct.Elem()}
+	}
+	if m := reFixedFn.FindStringSubmatch(n.Fun); m != nil {
+		var nn int64
+		fmt.Sscan(m[2], &nn)
+		fs := x.u.fixedSort(nn)
+		vs := args()
+		var ts []string
+		for _, v := range vs {
+			ts = append(ts, v.T)
+		}
+		t := "(" + n.Fun + " " + strings.Join(ts, " ") + ")"
+		switch m[1] {
+		case "at":
+			return Val{T: t, S: "Int"}
+		case "bytes":
+			return Val{T: t, S: x.bytesSort(), Ty: bytesT()}
+		case "from", "upd":
+			return Val{T: t, S: fs}
+		}
+	}
+	if n.Fun == "sub" {
+		vs := args()
+		if len(vs) != 3 || !strings.HasPrefix(vs[0].S, "Slice_") {
+			specFail("sub(b, lo, hi) needs a slice")
+		}
+		id := sortId(sliceElemSortOf(vs[0].S))
+		return Val{T: fmt.Sprintf("(sub_%s %s %s %s)", id, vs[0].T, vs[1].T, vs[2].T), S: vs[0].S, Ty: vs[0].Ty}
 	}
 	// predicate / pure macro
 	if p := x.eng.findPred(e.pkg, n.Fun); p != nil {
@@ -374,12 +430,15 @@ func (e *SpecEnv) call(n *SCall) Val {
 		}
 		return Val{T: "(" + n.Fun + " " + strings.Join(ts, " ") + ")", S: sig.res}
 	}
+	x.need(n.Fun)
 	specFail("unknown spec function %s", n.Fun)
 	return Val{}
 }
 
 func specSrc(e SExpr) string {
 	switch n := e.(type) {
+	case *SLit:
+		return n.Val
 	case *SIdent:
 		return n.Name
 	case *SSelector:
@@ -589,6 +648,20 @@ func (x *Exec) typeFromExpr(pkg *packages.Package, e ast.Expr) types.Type {
 func (x *Exec) placeKeys(pkg *packages.Package, place string) []string {
 	place = strings.TrimSpace(place)
 	place = strings.TrimPrefix(place, "fresh ")
+	if strings.HasPrefix(place, "lib:") {
+		k := strings.TrimPrefix(place, "lib:")
+		switch k {
+		case "bytes.Buffer.b":
+			x.bufKey()
+		case "bytes.Reader.s", "bytes.Reader.i":
+			x.readerKeys()
+		case "big.Int.v":
+			x.u.regHeap("big.Int.v", "(Array Int Int)")
+		default:
+			specFail("unknown library place %s", k)
+		}
+		return []string{k}
+	}
 	if place == "chan" {
 		var ks []string
 		x.u.regHeap("chan.nsent", "(Array Int Int)")
